@@ -14,7 +14,8 @@ Indentator / Obfuscator.
 import itertools
 
 from vk.boot import HarnessBroken
-from vk import probe
+from vk import probe, work
+from vk.gen import jsgen
 from vk import tree as vtree
 
 LEVEL = 'exploration'
@@ -29,7 +30,7 @@ RULE = ('histories over a pool of 15 trees (elisions, nested scopes, comments, t
 ASSUMPTIONS = ['behaviour of a generator after it raised, and identity (as opposed to equality) of fragments, are not demanded']
 BUDGET_S = {'quick': 120, 'thorough': 600}
 REQUIRED_HITS = ['full', 'abandon', 'raise', 'shortcut', 'str', 'fingerprints_compared', 'Indentator()', 'Obfuscator()',
-                 'shortcut_history_step', 'interleave', 'fresh_result_retaken']
+                 'shortcut_history_step', 'interleave', 'fresh_result_retaken', 'shortcut_sweep']
 FLOOR = {'quick': 200, 'thorough': 2000}
 
 TEXTS = [
@@ -537,6 +538,19 @@ def run(ctx):
             ctx.case(('shortcut_history', sseed), True)
             for mech, detail in v[:1]:
                 ctx.violation(mech, {'shortcut_seed': sseed, 'length': 24}, detail)
+        # the shortcuts against the explicit calls over *texts* at large: whatever a shortcut does to the text on the way
+        # (decoding, normalising line ends or Unicode, stripping) shows where the text has something to lose - line
+        # terminators of every kind inside tokens, comments, characters outside ASCII
+        pool = [t for k, t in enumerate(work.multiline_token_texts()) if k % ctx.nshards == ctx.shard]
+
+        def opts_fn(i, r):
+            return jsgen.Opts(clean=False, unicode_idents=True, string_continuations=True)
+        progs = work.Programs(ctx, ctx.per_shard(40, 600), opts_fn=opts_fn)
+        for text in itertools.chain(pool, (t for t, meta in progs)):
+            v = shortcut_sweep(ctx, text)
+            ctx.case(('shortcut_sweep', text), True)
+            if v:
+                ctx.violation(v[0], {'sweep_text': text}, v[1])
         ctx.extra['constructor_counts'] = dict(ctors.counts)
     finally:
         ctors.remove()
@@ -548,6 +562,39 @@ def run(ctx):
 SHORTCUT_TEXTS = ['a = b', '/re/.test(x)', 'x = 1 // trailing', 'x = /abc', 'f()', '/=/.exec(s)', 'a++', '/* lead */ y',
                   'var s = "unterminated', 'if (a) {}', '/x/g', 'o = {}', '} stray', 'return_ //', 'a /', '/ 2 / 3',
                   '[1, 2]', 'z /* open', 'k = 1;', "'use strict'\n/re/", 'this', 'while (0) ;', 'q = 1 /* c */']
+
+
+def shortcut_sweep(ctx, text):
+    """es5.pretty_print / es5.minify_print / es5() on one text, with and without comment capture, against the explicit calls"""
+    from calmjs.parse import es5
+    from calmjs.parse.parsers.es5 import parse
+    from calmjs.parse.unparsers.es5 import pretty_print, minify_print
+
+    def outcome(call):
+        try:
+            return call()
+        except RecursionError:
+            return 'resource_limit'
+        except Exception as e:
+            return 'raised %s: %s' % (type(e).__name__, str(e)[:80])
+    for wc in (False, True):
+        kw = {'with_comments': True} if wc else {}
+        for which, f, g in (('pretty', es5.pretty_print, pretty_print), ('minify', es5.minify_print, minify_print)):
+            a = outcome(lambda: f(text, **kw))
+            b = outcome(lambda: g(parse(text, **kw)))
+            ctx.hit('shortcut_sweep')
+            if a != b and 'resource_limit' not in (a, b):
+                k = next((i for i, (x, y) in enumerate(zip(a, b)) if x != y), min(len(a), len(b)))
+                return ('C14:shortcut_differs:%s' % which,
+                        'es5.%s(text%s) differs from %s_print(parse(text%s)) at character %d: %r vs %r\ninput: %r' % (
+                            which + '_print', ', with_comments=True' if wc else '', which, ', with_comments=True' if wc else '', k,
+                            a[max(0, k - 20):k + 20], b[max(0, k - 20):k + 20], text[:300]))
+        a = outcome(lambda: vtree.fingerprint(es5(text, **kw)))
+        b = outcome(lambda: vtree.fingerprint(parse(text, **kw)))
+        if a != b and 'resource_limit' not in (a, b):
+            return ('C14:shortcut_differs:tree', 'es5(text%s) and parse(text%s) give different trees\ninput: %r' % (
+                ', with_comments=True' if wc else '', ', with_comments=True' if wc else '', text[:300]))
+    return None
 
 
 def shortcut_history(ctx, rng, length):
@@ -585,6 +632,11 @@ def shortcut_history(ctx, rng, length):
 
 
 def replay(ctx, witness):
+    if witness.get('sweep_text') is not None:
+        v = shortcut_sweep(ctx, witness['sweep_text'])
+        if v:
+            ctx.violation(v[0], {'sweep_text': witness['sweep_text']}, v[1])
+        return
     if witness.get('shortcut_seed') is not None:
         import random
         hist, viol = shortcut_history(ctx, random.Random(witness['shortcut_seed']), witness['length'])
